@@ -620,6 +620,107 @@ Fixpoint crun (w : cworld) (ops : list cop) : cworld :=
   match ops with [] => w | o :: r => crun (cstep w o).1 r end.
 Definition cw0 : cworld := CW ∅ ∅ ∅.
 
+(* ---- Forwarding: a proxied client's packets on their way to the server ------------------------ *)
+(* Device A (a client Session) runs a Proxy; device B talks to that Proxy.  Proxy.notify hands every
+   packet of B that is not a NoP to A's Session.write, which queues it on A's send queue -- whole if
+   its Size() is at most limits.Frag, else as fragments, each of which carries the device of the
+   ORIGINAL packet (not the ID of the Session that writes).  A's Session.next packs the queue into
+   containers, Listener.talk / processMultiple hand every entry to the session of the device the
+   entry names (talkSub), whose receive() collects the fragments of a group and handles the packet
+   when the group is complete.
+   A queued packet: device, ID, job, position, number of fragments (0: not a fragment).
+   Not modelled: the replies going back down, out-of-order / duplicate / dropped fragments (C02),
+   two big packets with the same job (the group number is random in the code, the job stands for
+   it here). *)
+Record wpkt := WP { wp_dev : id; wp_pid : Z; wp_job : Z; wp_pos : Z; wp_len : Z }.
+
+(* Session.write(_, n) of the Session with ID sid, for a packet n naming dev with Size() = size *)
+Definition frag_count (F size : Z) : Z :=
+  let m := size / F in (if (m + 1) * F <? size then m + 1 else m) + 1.
+Fixpoint frag_list (dev : id) (pid job len : Z) (n : nat) (pos : Z) : list wpkt :=
+  match n with O => [] | S n' => WP dev pid job pos len :: frag_list dev pid job len n' (pos + 1) end.
+Definition session_write (F : Z) (sid dev : id) (pid job size : Z) : list wpkt :=
+  if (F <=? 0) || (size <=? F) then [WP dev pid job 0 0]
+  else let m := frag_count F size in frag_list dev pid job m (Z.to_nat m) 0.
+
+(* the server side: fragment groups being collected: (key of the session, job, pieces so far) *)
+Definition frs := list (Z * Z * Z).
+Fixpoint fr_get (fr : frs) (k g : Z) : option Z :=
+  match fr with
+  | [] => None
+  | (k', g', c) :: r => if (k =? k') && (g =? g') then Some c else fr_get r k g
+  end.
+Fixpoint fr_del (fr : frs) (k g : Z) : frs :=
+  match fr with
+  | [] => []
+  | (k', g', c) :: r => if (k =? k') && (g =? g') then fr_del r k g else (k', g', c) :: fr_del r k g
+  end.
+(* receive(s, l, n) for a packet with FlagFrag *)
+Definition recv_frag (fr : frs) (k : Z) (s : session) (w : wpkt) : frs * list eff :=
+  let handle := if wp_pid w <? MvRefresh then [] else [EHandle (s_id s) (wp_dev w) (wp_job w)] in
+  if negb (id_eqb (s_id s) (wp_dev w)) then (fr, [])
+  else if wp_len w =? 1 then (fr, handle)
+  else match fr_get fr k (wp_job w) with
+       | None => if 0 <? wp_pos w then (fr, []) else ((k, wp_job w, 1) :: fr, [])
+       | Some c => if c + 1 =? wp_len w then (fr_del fr k (wp_job w), handle)
+                   else ((k, wp_job w, c + 1) :: fr_del fr k (wp_job w), [])
+       end.
+
+(* one entry of A's containers reaching the Listener *)
+Definition deliver (A : id) (t : table) (fr : frs) (w : wpkt) : table * frs * list eff :=
+  if wp_len w =? 0 then
+    let n := Leaf (wp_dev w) (wp_pid w) (wp_job w) (if wp_pid w =? SvHello then BHello else BData) in
+    let '(t', e, _) := if id_eqb (wp_dev w) A then talk 0 t (Single n []) else talk_sub 0 t n false in
+    (t', fr, e)
+  else match lookup true t (wp_dev w) with
+       | Own s => let '(fr', e) := recv_frag fr (hash (wp_dev w)) s w in (t, fr', e)
+       | _ => (t, fr, [])       (* an unregistered device: re-registration request, nothing is handled *)
+       end.
+Fixpoint deliver_all (A : id) (t : table) (fr : frs) (q : list wpkt) : table * frs * list eff :=
+  match q with
+  | [] => (t, fr, [])
+  | w :: r => let '(t1, fr1, e1) := deliver A t fr w in
+              let '(t2, fr2, e2) := deliver_all A t1 fr1 r in (t2, fr2, e1 ++ e2)
+  end.
+
+Record fworld := FW { fw_tbl : table; fw_cl : gmap Z pclient; fw_q : list wpkt; fw_fr : frs }.
+Inductive fop :=
+| FHello (d : id) (j : Z)                 (* d's hello at A's Proxy *)
+| FSend (d : id) (pid job size : Z)       (* d hands A's Proxy a packet with this Size() *)
+| FPump.                                  (* A sends everything it has queued to the Listener *)
+
+(* Proxy.talk as far as forwarding goes: a reply (ABool true), a re-registration request, an error *)
+Definition fstep (F : Z) (A : id) (w : fworld) (o : fop) : fworld * list eff * ans :=
+  match o with
+  | FHello d j =>
+    if id_empty d then (w, [], AErr EClosed) else
+    match plookup true (fw_cl w) d with
+    | POwn _ => (FW (fw_tbl w) (fw_cl w) (fw_q w ++ session_write F A d SvHello j 0) (fw_fr w), [], ABool true)
+    | POther _ => (w, [], ARegister d)
+    | PFree =>
+      (* registered at the Proxy; the hello is forwarded by talk and again by notify *)
+      (FW (fw_tbl w) (<[hash d := PClient d []]> (fw_cl w))
+          (fw_q w ++ session_write F A d SvHello j 0 ++ session_write F A d SvHello j 0) (fw_fr w), [], ABool true)
+    end
+  | FSend d pid job size =>
+    if id_empty d then (w, [], AErr EClosed) else
+    match plookup true (fw_cl w) d with
+    | POwn _ => (FW (fw_tbl w) (fw_cl w) (fw_q w ++ session_write F A d pid job size) (fw_fr w), [], ABool true)
+    | _ => (w, [], ARegister d)
+    end
+  | FPump =>
+    let '(t', fr', e) := deliver_all A (fw_tbl w) (fw_fr w) (fw_q w) in
+    (FW t' (fw_cl w) [] fr', e, ABool true)
+  end.
+Fixpoint frun (F : Z) (A : id) (w : fworld) (ops : list fop) : fworld * list (list eff) :=
+  match ops with
+  | [] => (w, [])
+  | o :: r => let '(w1, e, _) := fstep F A w o in let '(w2, l) := frun F A w1 r in (w2, e :: l)
+  end.
+(* the world after A registered directly (job 1) *)
+Definition fw0 (A : id) : fworld :=
+  FW (talk 0 ∅ (Single (Leaf A SvHello 1 BHello) [])).1.1 ∅ [] [].
+
 (* ---- correspondence cases --------------------------------------------------- *)
 (* observable events of one step, in the order the server's event loop delivered them *)
 Inductive ev := VNew (sid : id) | VRecv (sid pdev : id) (job : Z) | VDrop (sid : id).
@@ -644,12 +745,16 @@ Record pobs := PObs { po_ans : ans; po_up : list out; po_tbl : list (Z * id * li
 Definition csnap := (Z * id * Z * list out)%type.
 Record cobs := CObs { co_ans : ans; co_tbl : list csnap; co_conns : list (Z * list Z) }.
 
+(* one step of a forwarding history: answer, handler events, A's send queue afterwards *)
+Record fobs := FObs { fo_ans : ans; fo_evs : list ev; fo_q : list wpkt }.
+
 Inductive case :=
 | CHash (d : id) (h : Z)                                        (* ID.Hash *)
 | CConsts (hello register complete refresh : Z)                 (* SvHello, SvRegister, SvComplete, MvRefresh *)
 | CHist (ops : list op) (o : list obs)                          (* a history on a fresh Server + Listener *)
 | CProxy (ops : list pop) (o : list pobs)                       (* a history on a fresh Proxy *)
-| CChan (ops : list cop) (o : list cobs).                       (* a history with Channels on a fresh Server + Listener *)
+| CChan (ops : list cop) (o : list cobs)                        (* a history with Channels on a fresh Server + Listener *)
+| CFwd (F : Z) (A : id) (ops : list fop) (o : list fobs).       (* a client behind A's Proxy, limits.Frag = F *)
 
 Definition out_eqb (a b : out) : bool :=
   let '(d, p, j) := a in let '(d', p', j') := b in id_eqb d d' && (p =? p') && (j =? j').
@@ -738,6 +843,18 @@ Fixpoint crun_check (w : cworld) (ops : list cop) (o : list cobs) : bool :=
   | _, _ => false
   end.
 
+Definition wpkt_eqb (a b : wpkt) : bool :=
+  id_eqb (wp_dev a) (wp_dev b) && (wp_pid a =? wp_pid b) && (wp_job a =? wp_job b) && (wp_pos a =? wp_pos b) && (wp_len a =? wp_len b).
+Fixpoint frun_check (F : Z) (A : id) (w : fworld) (ops : list fop) (o : list fobs) : bool :=
+  match ops, o with
+  | [], [] => true
+  | x :: ops', y :: o' =>
+    let '(w', e, r) := fstep F A w x in
+    ans_eqb r (fo_ans y) && list_eqb ev_eqb (flat_map ev_of e) (fo_evs y) && list_eqb wpkt_eqb (fw_q w') (fo_q y)
+    && frun_check F A w' ops' o'
+  | _, _ => false
+  end.
+
 Definition check_g (chk : bool) (c : case) : bool :=
   match c with
   | CHash d h => hash d =? h
@@ -745,6 +862,7 @@ Definition check_g (chk : bool) (c : case) : bool :=
   | CHist ops o => run_check chk 1 ∅ ops o
   | CProxy ops o => prun_check chk (Proxy ∅ []) ops o
   | CChan ops o => crun_check cw0 ops o
+  | CFwd F A ops o => frun_check F A (fw0 A) ops o
   end.
 (* the code as it is *)
 Definition check := check_g true.
